@@ -54,7 +54,12 @@ A commit stays held as long as SOME integration branch of the pull request reach
 drops what only w/X reached; what the robot had already merged down the cascade is still held by the later
 branches). Further: a completed command must remove exactly the `w/<version>/<source>` branches of this pull
 request, decline exactly the open pull requests whose source is one of them, and change nothing else;
-the evaluation that follows must put the integration branches back (unless it reports a conflict)."""
+the evaluation that follows must put the integration branches back (unless it reports a conflict).
+
+A fault block (harness/c15_faults.py, scripted, every run) evaluates the non-forced `reset` of histories with manual
+work on an integration branch while ONE git command of that job fails once (every command before its last push, one
+at a time: the refresh of the mirror cache, the clone, the checkouts, the `git log`s ...) and judges the first sentence
+of the property on the real remote whatever the job answered (keys `reset-under-fault/...`)."""
 import json
 import os
 import re
@@ -82,6 +87,8 @@ TRUSTED = [
     'the differential run of every reset / force_reset of every history on the exported real commit graph',
     'harness/tables/reset.py (AST extraction of the ignore_merges switches, prune/do_push flags, name template)',
     'harness/c15.py, harness/system.py, harness/histories.py (mock git host, real git, graph export, ghost sets)',
+    'harness/c15_faults.py on harness/c08_faults.py (wrapper around bert_e.lib.git.cmd that numbers the git commands of the '
+    'resetting job and raises CommandError for one of them, once; fork/snapshot of the world per fault)',
 ]
 
 KEY_MERGE = 'manual-merge-discarded'
@@ -762,13 +769,10 @@ def compare_rebuild(run, info, model):
 
 # ----------------------------------------------------------------------------- the property, in its own words
 
-def oracle_reset(run, ev, info):
-    """The property text on one executed command."""
-    fails = []
-    pr = info['pr']
-    k = ev['pr']
-    before, after = info['before'], info['after']
-    status = info['status']
+def held_work(run, k, pr, before):
+    """(integration branches of pull request `k` in the refs `before`, the manual work they hold): the entries of
+    the ghost set `manual` that an integration branch of the pull request reaches, its destination does not, and
+    that never were on the source branch - decided on the real graph of the bare repository"""
     wnames = [n for n in before if re.match(r'^w/[0-9.]+/%s$' % re.escape(pr['src']), n)]
     ever = set()
     for t in run.ever.get(k, ()):
@@ -784,6 +788,17 @@ def oracle_reset(run, ev, info):
         for m in run.manual.get(k, ()):
             if m['sha'] in inw and m['sha'] not in ever and m not in held:
                 held.append(m)
+    return wnames, held
+
+
+def oracle_reset(run, ev, info):
+    """The property text on one executed command."""
+    fails = []
+    pr = info['pr']
+    k = ev['pr']
+    before, after = info['before'], info['after']
+    status = info['status']
+    wnames, held = held_work(run, k, pr, before)
     obs = {'status': status, 'force': info['force'], 'held': [(m['kind'], m['branch']) for m in held],
            'integration_branches': sorted(wnames)}
     st_b = {p['id']: (p['state'], p['src']) for p in info['host_before']}
@@ -1011,13 +1026,33 @@ def correspondence(ctx):
     use_model = ctx.model is not None
     # corpus first, then the Conflict-workflow family, then the uniform histories - all through the one pool
     items = [('corpus', fn) for fn in _corpus_files()] + [('merge', j) for j in range(n_merge)] + list(range(n))
+    from . import c15_faults
+    import time
     with Pool(common.NCPU) as pool:
+        t0 = time.time()
+        fault_async = c15_faults.submit(pool, ctx, base)       # scripted, every run; shares the pool with the histories
         outs = pool.map(_work, [(ctx.seed, i, use_model, base) for i in items], chunksize=1)
+        t1 = time.time()
+        fault_outs = fault_async.get()
+        t2 = time.time()
     errors = [o for o in outs if 'error' in o]
     if errors:
         raise RuntimeError('history harness failed on %d histories; first: %s' % (len(errors), errors[0]['error']))
     for o in outs:
         absorb(res, o)
+    c15_faults.collect(res, fault_outs)
+    res.extra['wall_s_by_part'] = {'histories (fault units in the same pool)': round(t1 - t0, 1),
+                                   'waiting for the fault units after the histories': round(t2 - t1, 1),
+                                   'fault units, summed over the workers': round(sum(o.get('seconds', 0)
+                                                                                     for o in fault_outs), 1)}
+    res.rule += (' || FAULT BLOCK (harness/c15_faults.py, scripted, every run): %d histories {commit on the last / first '
+                 'integration branch, hand-made merge of the moved destination, integration branch re-created by hand, '
+                 'work before and after an evaluation, stabilization cascade with a merge and a commit} x {no queue, queue, '
+                 'queue+skip} x integration pull requests on/off; the evaluation that executes the non-forced `reset` is run '
+                 'once per git command it issues before its last push, that command failing once (CommandError); after a '
+                 'fault that leaves state in the mirror cache the pull request is evaluated once more; oracle: manual work '
+                 'held => nothing deleted, every integration branch and every held commit still there, whatever the answer'
+                 % len(c15_faults.scripted()))
     res.extra['commands_compared_with_model'] = res.model_compared
     return res
 
@@ -1025,6 +1060,9 @@ def correspondence(ctx):
 def replay(ctx, payload):
     from .system import Config
     inp = payload['failure']['input'] if 'failure' in payload else payload['input']
+    from . import c15_faults
+    if c15_faults.is_fault_input(inp):
+        return c15_faults.replay(ctx, inp)
     cfgd = dict(inp['cfg'])
     cfg = Config(cfgd.pop('dests'), **cfgd)
     out = play15(cfg, inp['events'], ctx.model)
